@@ -112,6 +112,8 @@ fn collect_item(
     thread::spawn(move || {
         debug!("reader: collect_item start");
         components_to_stop.fetch_add(1, Ordering::SeqCst);
+        #[cfg(feature = "verif")]
+        crate::verif::point("r.start", 0, 0);
         started_clone.store(true, Ordering::SeqCst); // notify parent that it is started
 
         loop {
